@@ -34,7 +34,7 @@ EXPLANATION = (
     "order and the sorted keyword items, so argument order and container structure are visible in the value) or comm (a sum: commutative), "
     "0-2 positional arguments, keyword arguments p / q in both insertion orders; List / Tuple / Set containers of 0-2 elements; Dict containers "
     "of 1-2 key/value pairs (string keys, integer-literal keys, repeated keys); containers, tasks, DataNode, Alias and raw list/tuple literals "
-    "nested inside tasks and lists; 24 fixed re-nestings of the references x, y; top-level Alias / DataNode. Leaves are TaskRef('x'/'y'[/'z']), "
+    "nested inside tasks and lists; 38 fixed re-nestings of the references x, y; top-level Alias / DataNode. Leaves are TaskRef('x'/'y'[/'z']), "
     "strings, and SYMBOLIC integer literals. Both nodes are built with the public constructors and evaluated with GraphNode.__call__ on the same "
     "symbolic dependency values {x: v_x, y: v_y, z: v_z}. Assertion: if a == b or b == a or tokenize(a) == tokenize(b) (dask.tokenize.tokenize "
     "and dask.base.tokenize; hash(a) == hash(b) and a == b is a sub-case) then a(values) == b(values), asked of z3 on the result terms "
@@ -73,7 +73,7 @@ BOUNDS = {
     "quick": dict(literals="[0, 1]", dep_keys="x, y", set_values="[0, 1]", containers="<= 2 elements / <= 2 Dict pairs", depth="<= 3",
                   pairs="a, b independent from the same family grammar"),
     "thorough": dict(literals="[0, 2]", dep_keys="x, y, z", set_values="[0, 2]", containers="<= 2 elements (3 in seq3) / <= 2 Dict pairs",
-                     depth="<= 3", pairs="a, b independent from the same family grammar"),
+                     depth="<= 3", pairs="a, b independent from the same family grammar; plus cross families nested f-vs-List, f-vs-g, List-vs-Tuple"),
 }
 
 
